@@ -453,3 +453,56 @@ Definition hyps_b (n : net) (sl : list slinfo) (t : tree) : bool :=
   && forallb (fun j => memb j (lkeys (involved n sl t))) (lkeys (root_legs n sl))
   && forallb (fun kv => 0 <? snd kv) (szd n)
   && nodup_b (zd_keys (szd n)).
+
+(* ------------------------------------------------------------------ *)
+(* the same loop driven by a CHOICE FUNCTION (what `max(cost.size_dict, key=...)` is:
+   a function of the iteration, the current key and the current cost) with fuel;
+   used to state termination.  trial_step is one iteration of the loop body. *)
+Inductive step_res :=
+  | SRet (r : cache * (list ix * costs))
+  | SRaise (k : nat)
+  | SCont (ch : cache) (key : list ix) (cost : costs).
+Definition trial_step (fd : finder) (x : ix) (ch : cache) (key : list ix) (cost : costs) : step_res :=
+  if negb (zd_mem x (c_sd cost)) then SRaise E_ORACLE
+  else if memb x (f_forbidden fd) then SRaise E_FORBIDDEN
+  else
+    let nkey := key_ins x key in
+    let step :=
+      match cache_get nkey ch with
+      | Some nc => Some (nc, ch)
+      | None => match remove x cost with
+                | Some nc => Some (nc, ch ++ [(nkey, nc)])
+                | None => None
+                end
+      end in
+    match step with
+    | None => SRaise E_KEY
+    | Some (nc, ch') =>
+        if opt_test (f_tover fd) (over_gt nc) then SRet (ch', (key, cost))
+        else if opt_test (f_tslices fd) (slices_ge nc) then SRet (ch', (nkey, nc))
+        else if opt_test (f_tsize fd) (size_le nc) then SRet (ch', (nkey, nc))
+        else SCont ch' nkey nc
+    end.
+Fixpoint trial_loop_g (fd : finder) (choose : nat -> list ix -> costs -> ix) (fuel step : nat)
+    (ch : cache) (key : list ix) (cost : costs) : outcome (cache * (list ix * costs)) :=
+  match c_sd cost with
+  | [] => Raise E_MAX_EMPTY
+  | _ =>
+      match fuel with
+      | O => Stuck
+      | S fuel' =>
+          match trial_step fd (choose step key cost) ch key cost with
+          | SRet r => Ret r
+          | SRaise k => Raise k
+          | SCont ch' key' cost' => trial_loop_g fd choose fuel' (S step) ch' key' cost'
+          end
+      end
+  end.
+Definition trial_g (fd : finder) (choose : nat -> list ix -> costs -> ix) (fuel : nat) (ch : cache)
+  : outcome (cache * (list ix * costs)) :=
+  match cache_get [] ch with
+  | None => Raise E_KEY
+  | Some cost =>
+      if already_satisfied fd cost then Ret (ch, ([], cost))
+      else trial_loop_g fd choose fuel 0%nat ch [] cost
+  end.
